@@ -1,7 +1,7 @@
 (* Property C13: the library functions that carry Lua names agree with Lua 5.4.
    Only the property theorems, each closed by [exact] of a lemma and followed by Print Assumptions.
    [lua_*] = reference (lstrlib.c / lutf8lib.c / lmathlib.c / lvm.c), [nl_*] = Nelua's port. *)
-From C13 Require Import Model ModelDrv ModelPack ModelUtf8 ModelPat ProofsIdx ProofsOrd ProofsDrv ProofsPack ProofsUtf8 ProofsPat.
+From C13 Require Import Model ModelDrv ModelPack ModelUtf8 ModelPat ModelPackFmt ProofsIdx ProofsOrd ProofsDrv ProofsPack ProofsUtf8 ProofsPat ProofsPackFmt.
 Local Open Scope Z_scope.
 
 (* ---- (a) index normalisation ---- *)
@@ -279,3 +279,23 @@ Theorem C13_gsub_pattern_eq_lua_partial : forall src pat repl anchor maxn p0, is
   lua_gsub (pat_matcher lua_cfg src pat p0) src repl anchor maxn <> None.
 Proof. exact gsub_pattern_eq_lua. Qed.
 Print Assumptions C13_gsub_pattern_eq_lua_partial.
+
+(* ---- (f) the pack format parser (string.packsize: options, sizes, '!' and 'X' alignment, the number reader) ----
+   on every format (a byte string; Lua's own parser stops at a NUL, such formats are outside this statement
+   because the reference gives an error on NUL): wherever lstrlib.c's parser returns a size, strpack.nelua
+   returns the same size.  (The converse is false by design: the port also accepts 't'.) *)
+Theorem C13_packsize_eq_lua : forall fmt v, is_bytes fmt = true ->
+  lua_packsize fmt = LVal v -> nl_packsize fmt = Val v.
+Proof. exact packsize_eq_lua. Qed.
+Print Assumptions C13_packsize_eq_lua.
+
+(* the padding: Nelua's (addr + align-1) & ~(align-1) in usize is Lua's total + ((align - (total & (align-1))) & (align-1)),
+   with the same "not a power of 2" refusal *)
+Theorem C13_pack_alignforward_eq_lua : forall total align maxalign,
+  0 <= total <= LUA_MAXSIZE -> 1 <= maxalign <= 16 -> 0 <= align <= 16 ->
+  let a := if maxalign <? align then maxalign else align in
+  if align <=? 1 then nl_alignforward total align maxalign = Val total
+  else if negb (Z.land a (a - 1) =? 0) then nl_alignforward total align maxalign = Trap
+  else nl_alignforward total align maxalign = Val (total + Z.land (a - Z.land total (a - 1)) (a - 1)).
+Proof. exact alignforward_eq_lua. Qed.
+Print Assumptions C13_pack_alignforward_eq_lua.
